@@ -54,8 +54,9 @@ func (o rop) String() string {
 }
 
 type ropEnv struct {
-	seg segment.Segment
-	dvr map[string]segment.DocumentValueReader
+	seg   segment.Segment
+	dvr   map[string]segment.DocumentValueReader
+	yield bool // call runtime.Gosched() inside visitor callbacks (C09)
 }
 
 func (o rop) run(env *ropEnv) (res string, err error) {
@@ -96,7 +97,11 @@ func (o rop) run(env *ropEnv) (res string, err error) {
 			}
 		case 2:
 			err := env.seg.VisitStoredFields(o.doc, func(f string, v []byte) bool {
-				fmt.Fprintf(&sb, "%s=%q ", f, v)
+				val := string(v) // copied at callback entry
+				if env.yield {
+					runtime.Gosched()
+				}
+				fmt.Fprintf(&sb, "%s=%q ", f, val)
 				return true
 			})
 			if err != nil {
@@ -113,7 +118,13 @@ func (o rop) run(env *ropEnv) (res string, err error) {
 				}
 				env.dvr[key] = r
 			}
-			err := r.VisitDocumentValues(o.doc, func(f string, tm []byte) { fmt.Fprintf(&sb, "%s=%q ", f, tm) })
+			err := r.VisitDocumentValues(o.doc, func(f string, tm []byte) {
+				val := string(tm)
+				if env.yield {
+					runtime.Gosched()
+				}
+				fmt.Fprintf(&sb, "%s=%q ", f, val)
+			})
 			if err != nil {
 				return err
 			}
